@@ -177,6 +177,11 @@ func runFree(dir string, schedFile string, w *vtrace.Writer) {
 				// not a verdict: the run is given up as an infrastructure failure
 				fatal("free run: call %v did not return within %v", st.Call, stepTimeout)
 			}
+			if str(st.Call, "op") == "AppendObject" && ret["err"] == "" {
+				// an append may create a version but does not return its id: look at the inner storage so
+				// that version ids keep being numbered in creation order
+				_ = s.g.interp.Views(s.g.raw)
+			}
 			ret["ev"], ret["call"] = "FCall", map[string]any(st.Call)
 			s.g.emit(ret)
 			calls++
